@@ -348,9 +348,15 @@ class BZipRead : public BZip {
     }
 
     bool Process() {
+      const bool no_input = !stream_.avail_in;
+      const char *const out_before = stream_.next_out;
       int ret = BZ2_bzDecompress(&stream_);
       if (ret == BZ_STREAM_END) return false;
       HandleError(ret);
+      // bzip2 answers BZ_OK without doing anything when it has neither input
+      // nor buffered output.  ReadStream only calls us without input at end of
+      // file, so nothing will ever change: the stream is truncated.
+      UTIL_THROW_IF(no_input && stream_.next_out == out_before, BZException, "bzip2 stream ended before the end of stream marker; truncated file?");
       return true;
     }
 };
